@@ -816,6 +816,9 @@ func (x *Exec) setRaw(st *State, key string, t *Term) {
 	st.heap[key] = v
 	x.recordWrite(st, key, t)
 	x.frameWrite(st, key, t)
+	if t.Op == "store" {
+		x.guardAccessK(st, t.Args[1], true, true)
+	}
 }
 
 func (x *Exec) makeMap(st *State, T types.Type) Value {
@@ -839,6 +842,7 @@ func (x *Exec) lookup(fr *Frame, st *State, in *ssa.Lookup) {
 	mf := x.mapFam(xv.T)
 	k := x.val(fr, in.Index).L[0]
 	m := xv.L[0]
+	x.guardAccessK(st, m, false, true)
 	dom, _ := x.mapComp(st, mf, "dom", 0)
 	ok := And(Not(Eq(m, IntLit(0))), Select(Select(dom, m), k))
 	ok = x.define(st, in.Name()+"_ok", ok)
@@ -895,6 +899,7 @@ func (x *Exec) mapDelete(fr *Frame, st *State, mv, kv Value) {
 
 func (x *Exec) mapLen(st *State, mv Value) *Term {
 	mf := x.mapFam(mv.T)
+	x.guardAccessK(st, mv.L[0], false, true)
 	ln, _ := x.mapComp(st, mf, "len", 0)
 	return Ite(Eq(mv.L[0], IntLit(0)), BVLit64(0, 64), Select(ln, mv.L[0]))
 }
